@@ -134,7 +134,7 @@ def run_parent(pid, mod, tier, sd, nshards=None, timeout=None):
                VERIF_TIER=tier, PYTHONDONTWRITEBYTECODE="1")
     procs = []
     for s in range(nshards):
-        out = os.path.join(WORK, f"{pid}.{tier}.{sd}.{s}.jsonl")
+        out = os.path.join(WORK, f"{pid}.{tier}.{sd}.{os.getpid()}.{s}.jsonl")
         if os.path.exists(out):
             os.remove(out)
         cmd = [PY, os.path.join(ROOT, "check.py"), pid, "--tier", tier,
